@@ -13,6 +13,8 @@ package query
 //verif:setup VerifC02Setup4
 //verif:harness VerifC02HeaderAndDialect mode=bv tier=quick split=4
 //verif:harness VerifC02RetriedCommit mode=bv tier=quick split=4
+//verif:setup VerifC02Setup5
+//verif:harness VerifC02FixedLength mode=bv tier=quick split=4
 
 import (
 	"github.com/mithrandie/csvq/lib/parser"
@@ -399,5 +401,84 @@ func VerifC02HeaderAndDialect() {
 		}
 	}
 	_ = proc2.ReleaseResourcesWithErrors()
+	verifReach("end")
+}
+
+var verifC02FixedUpd, verifC02FixedSel [2][]parser.Statement
+
+func VerifC02Setup5() {
+	for i, pos := range []string{"[2, 5]", "S[2, 5]"} {
+		verifC02FixedUpd[i] = verifParse("update fixed('" + pos + "', `f.txt`) set c2 = @c where c1 = 'ab'; commit;")
+		verifC02FixedSel[i] = verifParse("select c1, c2 from fixed('" + pos + "', `f.txt`);")
+	}
+}
+
+// Fixed-length format: a table read with given delimiter positions, one cell replaced by NULL or a text
+// of 0..2 (3) symbolic bytes (blank, line breaks, TAB, comma, letter, digit), COMMIT.  Either the
+// write is refused (text wider than the field, or a character the format cannot spell) and the file
+// is byte-identical, or the table reloads under the same positions with the same records and the
+// same cell texts, edge white space dropped (NULL and the empty text coincide).
+func VerifC02FixedLength() {
+	// records one per line under a header line, or all records on a single line without header
+	single := verifChoice("single-line", 2)
+	before := "c1c2 \nabcd \nefgh \n"
+	if single == 1 {
+		before = "abcd efgh "
+	}
+	verifFileWrite("f.txt", before)
+	c, tc, nc := verifC02Cell("c", 2, 3)
+	tx := verifNewTx()
+	tx.Flags.Quiet = true
+	proc := NewProcessor(tx)
+	verifVar(proc.ReferenceScope, "c", c)
+	_, err := proc.Execute(verifCtx(), verifC02FixedUpd[single])
+	_ = proc.AutoRollback()
+	_ = proc.ReleaseResourcesWithErrors()
+	if err != nil {
+		verifAssert("a refused update leaves the file as it was", verifFileRead("f.txt") == before)
+		verifReach("refused")
+		return
+	}
+	if single == 1 {
+		got := verifFileRead("f.txt")
+		verifAssert("a single-line table stays a single line of whole records", len(got) == len(before))
+	}
+	// expected text: edge white space dropped
+	want := []byte(tc)
+	isBlank := func(b byte) bool { return b == ' ' || b == '\t' || b == '\n' || b == '\r' }
+	for len(want) > 0 && isBlank(want[0]) {
+		want = want[1:]
+	}
+	for len(want) > 0 && isBlank(want[len(want)-1]) {
+		want = want[:len(want)-1]
+	}
+	tx2 := verifNewTx()
+	tx2.Flags.Quiet = true
+	proc2 := NewProcessor(tx2)
+	_, err = proc2.Execute(ContextForStoringResults(verifCtx()), verifC02FixedSel[single])
+	verifAssert("the updated table loads", err == nil && len(tx2.SelectedViews) == 1)
+	if err != nil || len(tx2.SelectedViews) != 1 {
+		return
+	}
+	v := tx2.SelectedViews[0]
+	verifAssert("same number of records", v.RecordLen() == 2)
+	verifAssert("same number of fields", v.FieldLen() == 2)
+	if v.RecordLen() == 2 && v.FieldLen() == 2 {
+		verifAssert("header reads back", v.Header[0].Column == "c1" && v.Header[1].Column == "c2")
+		s0, ok0 := v.RecordSet[0][0][0].(*value.String)
+		verifAssert("the neighbouring cell is intact", ok0 && s0.Raw() == "ab")
+		p := v.RecordSet[0][1][0]
+		if value.IsNull(p) {
+			verifAssert("the updated cell reads back", nc || len(want) == 0)
+		} else {
+			s, ok := p.(*value.String)
+			verifAssert("the updated cell reads back", ok && !nc && s.Raw() == string(want))
+		}
+		s1, ok1 := v.RecordSet[1][0][0].(*value.String)
+		s2, ok2 := v.RecordSet[1][1][0].(*value.String)
+		verifAssert("the other record is intact", ok1 && ok2 && s1.Raw() == "ef" && s2.Raw() == "gh")
+	}
+	_ = proc2.ReleaseResourcesWithErrors()
+	verifObserve("records", int64(v.RecordLen()))
 	verifReach("end")
 }
